@@ -124,6 +124,10 @@ func (rl *ruleLoader) objectEndAfterRuleName(lex lexeme.LexEvent) {
 }
 
 func (rl *ruleLoader) ruleValueBegin(lex lexeme.LexEvent) {
+	if lex.Type() == lexeme.NewLine {
+		// A line break between "name:" and the value, as everywhere else in a rule object.
+		return
+	}
 	if lex.Type() != lexeme.ObjectValueBegin {
 		panic(errors.ErrLoader)
 	}
